@@ -354,7 +354,7 @@ func TestC02ExclusionWide(t *testing.T) {
 func TestC02ListNextToSubnet(t *testing.T) {
 	kit.Run(t, kit.Spec[c01Case]{
 		Prop: "C02",
-		Rule: "icmp / udp / tcp with a target list (-f, 2..40 lines in one /24, 4- and 16-byte spellings) AND a subnet argument that is disjoint from the list, contains it, or is one of its hosts, plus 1..5 exclusion entries (hosts, CIDRs) taken from the list's addresses. Judged: only the exclusion clause - no frame is addressed to an excluded address; the command does not fail. non-trivial: some probe was sent and some listed address is excluded; distinct by case",
+		Rule: "icmp / udp / tcp with a target list (-f, 2..40 lines in one /24, 4- and 16-byte spellings) AND a subnet argument that is disjoint from the list, contains it, or is one of its hosts, plus 1..5 exclusion entries (hosts, CIDRs) taken from the list's addresses. in a fifth of the cases the exclusion entries are split over two files given as one comma-separated --exclude value (refusing that is fine; if it is taken, both files count). Judged: only the exclusion clause - no frame is addressed to an excluded address; the command does not fail. non-trivial: some probe was sent and some listed address is excluded; distinct by case",
 		Gen: func(t *rapid.T) c01Case {
 			c := c01Case{Cmd: rapid.SampledFrom([]string{"icmp", "udp", "tcp", "tcp fin"}).Draw(t, "cmd"), Seed: rapid.Int64().Draw(t, "seed"), PortsVia: "p"}
 			base := strings.Fields(c.Cmd)[0]
@@ -386,6 +386,7 @@ func TestC02ListNextToSubnet(t *testing.T) {
 				}
 			}
 			c.VPN = rapid.Bool().Draw(t, "vpn")
+			c.ExcludeAsList = len(c.Spec.Exclude) >= 2 && rapid.IntRange(0, 4).Draw(t, "two-files") == 0
 			return c
 		},
 		Check: func(c c01Case) *kit.Verdict {
@@ -402,10 +403,31 @@ func TestC02ListNextToSubnet(t *testing.T) {
 			files := &cmdFiles{}
 			defer files.cleanup()
 			args, stdin := specArgs(c.Cmd, c.Spec, c.PortsVia, false, c.VPN, files, "--exit-delay", "5ms")
+			if c.ExcludeAsList {
+				// the entries split over two files, given as one comma-separated value: sx may refuse that (it does: no such
+				// file); if it takes it, both files are the exclusion list
+				for i := range args {
+					if args[i] == "--exclude" && i+1 < len(args) {
+						h := len(c.Spec.Exclude) / 2
+						args[i+1] = files.write("exclude-a", strings.Join(c.Spec.Exclude[:h], "\n")+"\n") + "," +
+							files.write("exclude-b", strings.Join(c.Spec.Exclude[h:], "\n")+"\n")
+					}
+				}
+				v.Label("exclude=two-files")
+			}
 			res := runCmd(cmdRun{Args: args, Stdin: stdin, Seed: c.Seed, Timeout: 120 * time.Second})
 			line := "sx " + strings.Join(args, " ")
 			if res.Hung {
 				return v.Failf("%s did not return within 120s\n%s", line, clipN(res.Goroutines, 3000))
+			}
+			if res.Err != nil && c.ExcludeAsList {
+				for _, s := range res.Sockets {
+					if len(s.Writes) > 0 {
+						return v.Failf("%s was refused (%v) but %d frames were written", line, res.Err, len(s.Writes))
+					}
+				}
+				v.Label("refused")
+				return v
 			}
 			if res.Err != nil {
 				return v.Failf("%s failed: %v\nstderr: %s", line, res.Err, clipN(res.Stderr, 600))
